@@ -131,6 +131,8 @@ const TARGETS: &[Target] = &[
     Target { file: "ssz/src/bitfield/bitvector_dynamic.rs", imp: "Bitfield<Dynamic>", tr: "Encode", name: "ssz_append", coq: "bitdyn_ssz_append" },
     Target { file: "ssz/src/bitfield/bitvector_dynamic.rs", imp: "Bitfield<Dynamic>", tr: "Decode", name: "is_ssz_fixed_len", coq: "bitdyn_dec_is_ssz_fixed_len" },
     Target { file: "ssz/src/bitfield/bitvector_dynamic.rs", imp: "Bitfield<Dynamic>", tr: "Decode", name: "from_ssz_bytes", coq: "bitdyn_from_ssz_bytes" },
+    Target { file: "ssz/src/bitfield.rs", imp: "Bitfield<Fixed<N>>", tr: "Arbitrary", name: "arbitrary", coq: "bitvector_arbitrary" },
+    Target { file: "ssz/src/bitfield.rs", imp: "Bitfield<Variable<N>>", tr: "Arbitrary", name: "arbitrary", coq: "bitlist_arbitrary" },
     Target { file: "ssz/src/bitfield.rs", imp: "Bitfield<Variable<N>>", tr: "Serialize", name: "serialize", coq: "bitlist_serialize" },
     Target { file: "ssz/src/bitfield.rs", imp: "Bitfield<Variable<N>>", tr: "Deserialize", name: "deserialize", coq: "bitlist_deserialize" },
     Target { file: "ssz/src/bitfield.rs", imp: "Bitfield<Fixed<N>>", tr: "Serialize", name: "serialize", coq: "bitvector_serialize" },
@@ -1427,6 +1429,21 @@ impl Cx {
                     }
                     return Err(format!("{}::to_usize() of a type parameter that is not a type-level number in scope", n));
                 }
+                if f == "usize::arbitrary" && c.args.len() == 1 {
+                    // reads eight bytes of entropy (zero-filled when fewer are left): the value; `u` is what remains
+                    if let Expr::Path(up) = strip_refs(&c.args[0]) {
+                        let u = coq_ident(&path_str(&up.path));
+                        let p = self.var("p");
+                        self.binds.push((format!("LET:{}", p), format!("arbitrary_usize {}", u)));
+                        self.binds.push((format!("LET:{}", u), format!("(snd {})", p)));
+                        return Ok((format!("Ok (fst {})", p), Comp));
+                    }
+                }
+                if (f == "std::cmp::min" || f == "cmp::min") && c.args.len() == 2 {
+                    let a = self.val(&c.args[0])?;
+                    let b = self.val(&c.args[1])?;
+                    return Ok((format!("(N.min {} {})", a, b), Pure));
+                }
                 if f == "hex_encode" && c.args.len() == 1 {
                     // `serde_utils::hex::encode`: "0x" and lowercase hex digits
                     let v = self.val(&c.args[0])?;
@@ -2648,6 +2665,15 @@ impl Cx {
                 let body = self.block(rest, k)?;
                 Ok(format!("let {} := {} in\n{}", bufv, nv, body))
             }
+            // `u.fill_buffer(&mut vec)?`: the buffer is filled from the entropy (zeros when it runs out), which shrinks
+            Expr::Try(t) if matches!(&*t.expr, Expr::MethodCall(m) if m.method == "fill_buffer" && m.args.len() == 1) => {
+                let m = match &*t.expr { Expr::MethodCall(m) => m, _ => unreachable!() };
+                let u = match strip_refs(&m.receiver) { Expr::Path(pp) => coq_ident(&path_str(&pp.path)), other => return Err(format!("fill_buffer on {}", tokens(other))) };
+                let v = match strip_refs(&m.args[0]) { Expr::Path(pp) => coq_ident(&path_str(&pp.path)), other => return Err(format!("fill_buffer into {}", tokens(other))) };
+                let p = self.var("p");
+                let body = self.block(rest, k)?;
+                Ok(format!("let {} := fill_buffer {} (llen {}) in\nlet {} := (fst {}) in\nlet {} := (snd {}) in\n{}", p, u, v, v, p, u, p, body))
+            }
             // v.reserve(n): no observable effect, but the argument is evaluated (it can overflow)
             Expr::MethodCall(m) if m.method == "reserve" && m.args.len() == 1 => {
                 let _ = self.val(&m.args[0])?;
@@ -2975,6 +3001,8 @@ fn coq_type(t: &Type, records: &HashMap<String, Vec<String>>) -> R<String> {
         "usize" | "u8" | "u32" | "u64" => "N".into(),
         "bool" => "bool".into(),
         "[u8]" | "Vec<u8>" | "SmallVec<[u8;SMALLVEC_LEN]>" => "bytes".into(),
+        // `arbitrary::Unstructured`: the entropy that is left
+        "mutarbitrary::Unstructured<'_>" | "arbitrary::Unstructured<'_>" => "bytes".into(),
         "SmallVec8<[u8]>" => "(list bytes)".into(),
         "Option<usize>" => "(option N)".into(),
         "UnionSelector" => "N".into(),
